@@ -1039,6 +1039,10 @@ func (p *BinaryProtocol) ReadList(desc *proto.TypeDescriptor, copyString bool, d
 			}
 			list = append(list, v)
 		}
+		if p.Read != start+length {
+			// the last element ran past the list's length prefix
+			return nil, errDecodeField
+		}
 	} else {
 		// unpacked list
 		v, err := p.ReadBaseTypeWithDesc(elemetdesc, hasMessageLen, copyString, disallowUnknown, useFieldName)
